@@ -164,4 +164,8 @@ def build_pomdp(spec):
         def observation_dist(self, a, ns):
             return as_dist(list(obs[(aidx[a], sidx[ns])].items()))
 
+    if spec.get("explicit_observations") is not None:
+        # the observation list declared as a class attribute (as the repo's LoadUnload does), in the spec's own order -
+        # which need not be sorted and may name an observation that is never emitted
+        SpecPOMDP.observation_list = [OL[i] for i in spec["explicit_observations"]]
     return SpecPOMDP(), v
